@@ -435,6 +435,118 @@ pub fn run(cfg: &Cfg) -> i32 {
         });
         corp.push(jo(vec![("corpus", js(*name)), ("max_nodes", ji(*maxn)), ("programs", ji(nprog.load(Ordering::Relaxed) - before))]));
     }
+    // (c) limits changed between evaluations: every sequence of 3 (program, limit) steps
+    let seq_progs = ["1 2 3", "5 0 do I loop", "9 var q q", "[ 1 2 ] unbox +", "drop drop", ": z 1 ; z"];
+    #[derive(Clone, Copy, Debug)]
+    enum L {
+        InsnZero,
+        InsnExact,
+        InsnExactPlus,
+        StackOne,
+        StackExact,
+        HeapNow,
+        NoLimit,
+    }
+    let ls = [L::InsnZero, L::InsnExact, L::InsnExactPlus, L::StackOne, L::StackExact, L::HeapNow, L::NoLimit];
+    let choices: Vec<(usize, usize)> = (0..seq_progs.len()).flat_map(|p| (0..ls.len()).map(move |l| (p, l))).collect();
+    let nseq = AtomicU64::new(0);
+    par_run(cfg.threads, choices.len() * choices.len(), 8, |_t, pull| {
+        let base = boot();
+        while let Some(r) = pull() {
+            for ij in r {
+                let (c1, c2) = (choices[ij / choices.len()], choices[ij % choices.len()]);
+                for c3 in &choices {
+                    let seq = [c1, c2, *c3];
+                    nseq.fetch_add(1, Ordering::Relaxed);
+                    let mut xs = base.clone(); // under the chosen limits
+                    let mut un = base.clone(); // the same sources without any limit
+                    let mut all_sufficient = true;
+                    let mut desc = vec![];
+                    for (pi, li) in seq {
+                        let src = seq_progs[pi];
+                        // what this evaluation needs from the current state
+                        let mut probe = xs.clone();
+                        probe.set_insn_limit(None).unwrap();
+                        probe.set_stack_limit(None).unwrap();
+                        probe.set_heap_limit(None).unwrap();
+                        let _ = guarded(|| probe.eval(src));
+                        let need = pt(&probe);
+                        let cur = pt(&xs);
+                        xs.set_insn_limit(None).unwrap();
+                        xs.set_stack_limit(None).unwrap();
+                        xs.set_heap_limit(None).unwrap();
+                        let (lim, sufficient): (Option<Lim>, bool) = match ls[li] {
+                            L::InsnZero => (Some(Lim::Insn(Some(0))), need.meter == 0),
+                            L::InsnExact => (Some(Lim::Insn(Some(need.meter))), true),
+                            L::InsnExactPlus => (Some(Lim::Insn(Some(need.meter + 1))), true),
+                            L::StackOne => (Some(Lim::Stack(Some(cur.stack.max(1)))), false),
+                            L::StackExact => (Some(Lim::Stack(Some(need.stack.max(cur.stack) + 2))), true),
+                            L::HeapNow => (Some(Lim::Heap(Some(cur.heap))), need.heap <= cur.heap),
+                            L::NoLimit => (None, true),
+                        };
+                        if let Some(l) = lim {
+                            apply_limit(&mut xs, l);
+                        }
+                        desc.push(format!("{} under {:?}", src, ls[li]));
+                        let r = match guarded(|| xs.eval(src)) {
+                            Ok(r) => r,
+                            Err(pn) => {
+                                rep.report_w("panic:limit-sequence", 3, || jo(vec![("sequence", js(format!("{:?}", desc))), ("panic", js(pn))]));
+                                break;
+                            }
+                        };
+                        let _ = guarded(|| un.eval(src));
+                        let after = pt(&xs);
+                        let bad = match lim {
+                            Some(Lim::Insn(Some(n))) => after.meter > n,
+                            Some(Lim::Stack(Some(n))) => after.stack > n,
+                            Some(Lim::Heap(Some(n))) => after.heap > n,
+                            _ => false,
+                        };
+                        if bad {
+                            let d = desc.clone();
+                            rep.report_w("sequence:bound-exceeded", 3, || jo(vec![("kind", js("limit-sequence")), ("sequence", js(format!("{:?}", d))), ("after", js(format!("{:?}", after)))]));
+                        }
+                        if !sufficient {
+                            all_sufficient = false;
+                        } else if all_sufficient {
+                            let _ = r;
+                        }
+                        if !all_sufficient {
+                            // from here on the two interpreters may legitimately differ: resynchronise
+                            un = xs.clone();
+                            un.set_insn_limit(None).unwrap();
+                            un.set_stack_limit(None).unwrap();
+                            un.set_heap_limit(None).unwrap();
+                            all_sufficient = true;
+                        } else {
+                            let (a, b) = (xs.verif_dump_light(), un.verif_dump_light());
+                            if let Some(d) = first_diff(&a, &b, &["meter", "limits", "ctx", "nested", "ip", "running"]) {
+                                let dd = desc.clone();
+                                rep.report_w("sequence:sufficient-limits-change-the-outcome", 3, || jo(vec![("kind", js("limit-sequence")), ("sequence", js(format!("{:?}", dd))), ("difference_limited_vs_unlimited", js(d.clone()))]));
+                                un = xs.clone();
+                            }
+                        }
+                    }
+                    // all limits lifted: the interpreter works
+                    xs.set_insn_limit(None).unwrap();
+                    xs.set_stack_limit(None).unwrap();
+                    xs.set_heap_limit(None).unwrap();
+                    let before = stack_of(&xs);
+                    let r = guarded(|| xs.eval("1 2 + 8 var zq zq"));
+                    let mut want = before;
+                    want.push("i:3".into());
+                    want.push("i:8".into());
+                    if !matches!(r, Ok(Ok(()))) || stack_of(&xs) != want {
+                        rep.report_w("sequence:not-recoverable", 3, || jo(vec![("kind", js("limit-sequence")), ("sequence", js(format!("{:?}", desc))), ("probe_result", js(format!("{:?} {:?}", r, stack_of(&xs))))]));
+                    }
+                }
+            }
+        }
+    });
+    corp.push(jo(vec![("corpus", js("limit sequences of 3 evaluations")), ("sequences", ji(nseq.load(Ordering::Relaxed)))]));
+    nruns.fetch_add(nseq.load(Ordering::Relaxed) * 3, Ordering::Relaxed);
+
     for need in ["insn:refused", "insn:resumed", "stack:refused", "heap:refused", "insn:sufficient"] {
         if stats.get(need) == 0 && !rep.has_unknown() {
             vacuous(&format!("vacuous: no case of class {}", need));
